@@ -26,27 +26,27 @@ Definition inverts (D : nat) (f : form) (A B : list (list K)) : Prop :=
 Ltac both := intro x; split; fcbv; list_eq.
 
 (* translation: negation *)
-Lemma translation2_inverts p0 p1 : inverts 2 FT (gen_translation2_fwd p0 p1) (gen_translation2_inv p0 p1).
+Lemma translation2_inverts (p0 p1 : K) : inverts 2 FT (gen_translation2_fwd p0 p1) (gen_translation2_inv p0 p1).
 Proof. both; ring. Qed.
-Lemma translation3_inverts p0 p1 p2 : inverts 3 FT (gen_translation3_fwd p0 p1 p2) (gen_translation3_inv p0 p1 p2).
+Lemma translation3_inverts (p0 p1 p2 : K) : inverts 3 FT (gen_translation3_fwd p0 p1 p2) (gen_translation3_inv p0 p1 p2).
 Proof. both; ring. Qed.
 
 (* scaling: reciprocal, for non-zero factors *)
-Lemma isoscale2_inverts p : p <> 0 -> inverts 2 FA (gen_isoscale2_fwd p) (gen_isoscale2_inv p).
+Lemma isoscale2_inverts (p : K) : p <> 0 -> inverts 2 FA (gen_isoscale2_fwd p) (gen_isoscale2_inv p).
 Proof. intro H. both; field; side. Qed.
-Lemma isoscale3_inverts p : p <> 0 -> inverts 3 FA (gen_isoscale3_fwd p) (gen_isoscale3_inv p).
+Lemma isoscale3_inverts (p : K) : p <> 0 -> inverts 3 FA (gen_isoscale3_fwd p) (gen_isoscale3_inv p).
 Proof. intro H. both; field; side. Qed.
-Lemma anisoscale2_inverts p0 p1 : p0 <> 0 -> p1 <> 0 ->
+Lemma anisoscale2_inverts (p0 p1 : K) : p0 <> 0 -> p1 <> 0 ->
   inverts 2 FA (gen_anisoscale2_fwd p0 p1) (gen_anisoscale2_inv p0 p1).
 Proof. intros H0 H1. both; field; side. Qed.
-Lemma anisoscale3_inverts p0 p1 p2 : p0 <> 0 -> p1 <> 0 -> p2 <> 0 ->
+Lemma anisoscale3_inverts (p0 p1 p2 : K) : p0 <> 0 -> p1 <> 0 -> p2 <> 0 ->
   inverts 3 FA (gen_anisoscale3_fwd p0 p1 p2) (gen_anisoscale3_inv p0 p1 p2).
 Proof. intros H0 H1 H2. both; field; side. Qed.
 
 (* shearing: unit upper triangular, always invertible (t_i = tan of the shear angles) *)
-Lemma shear2_inverts t0 : inverts 2 FA (gen_shear2_fwd t0) (gen_shear2_inv t0).
+Lemma shear2_inverts (t0 : K) : inverts 2 FA (gen_shear2_fwd t0) (gen_shear2_inv t0).
 Proof. both; field; side. Qed.
-Lemma shear3_inverts t0 t1 t2 : inverts 3 FA (gen_shear3_fwd t0 t1 t2) (gen_shear3_inv t0 t1 t2).
+Lemma shear3_inverts (t0 t1 t2 : K) : inverts 3 FA (gen_shear3_fwd t0 t1 t2) (gen_shear3_inv t0 t1 t2).
 Proof. both; field; side. Qed.
 
 (* rotations: transpose, given orthonormality *)
@@ -73,17 +73,17 @@ Proof.
 Qed.
 
 (* the traced EulerRotation.tensor is euler_rotation_matrix, resp. its transpose, for all 27 orders *)
-Lemma euler3_fwd_is_gen_euler o c0 c1 c2 s0 s1 s2 :
+Lemma euler3_fwd_is_gen_euler o (c0 c1 c2 s0 s1 s2 : K) :
   gen_euler3_fwd o c0 c1 c2 s0 s1 s2 = gen_euler o c0 c1 c2 s0 s1 s2.
 Proof. destruct o as [[[] []] []]; reflexivity. Qed.
-Lemma euler3_inv_is_transpose o c0 c1 c2 s0 s1 s2 :
+Lemma euler3_inv_is_transpose o (c0 c1 c2 s0 s1 s2 : K) :
   gen_euler3_inv o c0 c1 c2 s0 s1 s2 = mT 3 (gen_euler3_fwd o c0 c1 c2 s0 s1 s2).
 Proof. destruct o as [[[] []] []]; reflexivity. Qed.
 
-Lemma gen_euler_is3 o c0 c1 c2 s0 s1 s2 : is3 K (gen_euler o c0 c1 c2 s0 s1 s2).
+Lemma gen_euler_is3 o (c0 c1 c2 s0 s1 s2 : K) : is3 K (gen_euler o c0 c1 c2 s0 s1 s2).
 Proof. destruct o as [[[] []] []]; fcbv; repeat eexists. Qed.
 
-Lemma euler3_inverts o c0 c1 c2 s0 s1 s2 :
+Lemma euler3_inverts o (c0 c1 c2 s0 s1 s2 : K) :
   c0 * c0 + s0 * s0 = 1 -> c1 * c1 + s1 * s1 = 1 -> c2 * c2 + s2 * s2 = 1 ->
   inverts 3 FA (gen_euler3_fwd o c0 c1 c2 s0 s1 s2) (gen_euler3_inv o c0 c1 c2 s0 s1 s2).
 Proof.
@@ -91,18 +91,18 @@ Proof.
   apply rotation3_transpose_inverts; [apply gen_euler_is3 | apply gen_euler_is_rotation; assumption].
 Qed.
 
-Lemma euler2_inverts c s : c * c + s * s = 1 -> inverts 2 FA (gen_euler2_fwd c s) (gen_euler2_inv c s).
+Lemma euler2_inverts (c s : K) : c * c + s * s = 1 -> inverts 2 FA (gen_euler2_fwd c s) (gen_euler2_inv c s).
 Proof.
   intro H. assert (Hc : c * c = 1 - s * s) by (rewrite <- H; ring).
   both; ring [Hc].
 Qed.
 
 (* quaternion rotation *)
-Lemma quaternion_fwd_is_gen n w x y z : gen_quaternion_fwd n w x y z = gen_quat_matrix n w x y z.
+Lemma quaternion_fwd_is_gen (n w x y z : K) : gen_quaternion_fwd n w x y z = gen_quat_matrix n w x y z.
 Proof. reflexivity. Qed.
-Lemma quaternion_inv_is_transpose n w x y z : gen_quaternion_inv n w x y z = mT 3 (gen_quaternion_fwd n w x y z).
+Lemma quaternion_inv_is_transpose (n w x y z : K) : gen_quaternion_inv n w x y z = mT 3 (gen_quaternion_fwd n w x y z).
 Proof. reflexivity. Qed.
-Lemma quaternion_inverts n w x y z :
+Lemma quaternion_inverts (n w x y z : K) :
   n <> 0 -> n * n = gen_quat_norm2 w x y z ->
   inverts 3 FA (gen_quaternion_fwd n w x y z) (gen_quaternion_inv n w x y z).
 Proof.
@@ -111,9 +111,19 @@ Proof.
 Qed.
 
 (* homogeneous transform: matrix inverse of the augmented matrix, for an invertible linear part *)
-Lemma homogeneous2_inverts h00 h01 h02 h10 h11 h12 :
+Lemma homogeneous2_inverts (h00 h01 h02 h10 h11 h12 : K) :
   h00 * h11 - h01 * h10 <> 0 ->
   inverts 2 FH (gen_homogeneous2_fwd h00 h01 h02 h10 h11 h12) (gen_homogeneous2_inv h00 h01 h02 h10 h11 h12).
 Proof. intro Hd. both; field; side. Qed.
+
+Lemma homogeneous3_inverts (h00 h01 h02 h03 h10 h11 h12 h13 h20 h21 h22 h23 : K) :
+  det3 [[h00; h01; h02]; [h10; h11; h12]; [h20; h21; h22]] <> 0 ->
+  inverts 3 FH (gen_homogeneous3_fwd h00 h01 h02 h03 h10 h11 h12 h13 h20 h21 h22 h23)
+               (gen_homogeneous3_inv h00 h01 h02 h03 h10 h11 h12 h13 h20 h21 h22 h23).
+Proof.
+  intro Hd. fcbv_in Hd. intro x; split; fcbv; list_eq.
+  all: field.
+  all: intro E; apply Hd; rewrite <- E; ring.
+Qed.
 
 End Proofs.
